@@ -267,6 +267,22 @@ m = g(r.sub, p.sub) && r.obj == p.obj && r.act == p.act
 		if after := allKey(e1); after != before {
 			c.Direct(id, "SavePolicy+LoadPolicy through the file adapter changed the rules", fmt.Sprintf("text=%q before=%s after=%s", text, before, after))
 		}
+		// the policy shrinks, is saved over the longer file and reloaded: nothing of the old
+		// content may come back
+		e1.EnableAutoSave(false)
+		if pol, _ := e1.GetNamedPolicy("p"); len(pol) > 0 {
+			_, _ = e1.RemoveNamedPolicy("p", toIface(append([]string(nil), pol[0]...))...)
+		} else if gp, _ := e1.GetNamedGroupingPolicy("g"); len(gp) > 0 {
+			_, _ = e1.RemoveNamedGroupingPolicy("g", toIface(append([]string(nil), gp[0]...))...)
+		}
+		shrunk := allKey(e1)
+		if err := e1.SavePolicy(); err != nil {
+			c.Direct(id, "SavePolicy of the shrunk policy failed on the file adapter", text)
+		} else if err := e1.LoadPolicy(); err != nil {
+			c.Direct(id, "LoadPolicy after saving the shrunk policy failed on the file adapter", fmt.Sprintf("text=%q shrunk=%s", text, shrunk))
+		} else if after := allKey(e1); after != shrunk {
+			c.Direct(id, "a shorter policy saved over a longer file does not reload as itself", fmt.Sprintf("text=%q saved=%s reloaded=%s", text, shrunk, after))
+		}
 		// string adapter: load only (its SavePolicy keeps the text in memory)
 		m2, _ := model.NewModelFromString(mtext)
 		sa := stringadapter.NewAdapter(text)
